@@ -52,7 +52,7 @@ CHECKS = {
         technique=SHELL_TECH, design_ref="DESIGN.md §4 C03"),
     "C04": dict(
         text="Theorems message_documented, report_truthful (each message against the returned state), success_iff, nit_bound, nfev_bound, "
-             "criteria_called_once, thresholds — for all user callables, oracles and configurations incl. restarts with maxiter below the "
+             "criteria_called_once, thresholds; projgr_shift (Props/C04Shift, ordered field: the projected-gradient norm tested against pgtol does not depend on the origin of the variables) — for all user callables, oracles and configurations incl. restarts with maxiter below the "
              "checkpoint's nit; tied by bit-exact trace replay over the configuration lattice and restart chains; messages of real runs are "
              "cross-checked against the returned state.",
         note=SHELL_NOTE, technique=SHELL_TECH, design_ref="DESIGN.md §4 C04"),
@@ -146,7 +146,7 @@ CHECKS.update({
     "C11": dict(
         text="C14 display_evaluates_nothing (regenerated table: display code calls nothing that can reach a user callable: the evaluation cap does not depend on the display level). Theorems over the line-search model with DCSRCH an arbitrary oracle and any arithmetic: ls_points_in_box, ls_evals_le_cap, ls_result_downhill; "
              "ordered field: maxStep_feasible, ls_trials_on_ray; dcsrch_steps_in_range (any arithmetic): the Lean port of SciPy's DCSRCH._iterate + dcstep "
-             "(Model/Dcsrch.lean, compared bit for bit with every recorded stepper call) proposes only steps in [0, stpmax]; ls_result_in_range / ls_steps_in_range (any arithmetic): with that stepper plugged into the driver's line search the returned step and every evaluated step lie in [0, max_allowed_steplength] (invariant of the line-search loop over the stepper's invariant), ls_evals_on_ray (ordered field: every evaluation is at a feasible x + a d, a <= maxstep). The model's max_allowed_steplength is compared bit for bit with the bound the real code hands to DCSRCH. Tied by replaying stand-alone line searches of the real code (recorded DCSRCH answers) through the model bit "
+             "(Model/Dcsrch.lean, compared bit for bit with every recorded stepper call) proposes only steps in [0, stpmax]; ls_result_in_range / ls_steps_in_range (any arithmetic): with that stepper plugged into the driver's line search the returned step and every evaluated step lie in [0, max_allowed_steplength] (invariant of the line-search loop over the stepper's invariant), ls_evals_on_ray (ordered field: every evaluation is at a feasible x + a d, a <= maxstep), maxAllowedStep_units / maxAllowedStep_shift (C11Units: the largest feasible step depends neither on the units nor on the origin of the variables). The model's max_allowed_steplength is compared bit for bit with the bound the real code hands to DCSRCH. Tied by replaying stand-alone line searches of the real code (recorded DCSRCH answers) through the model bit "
              "for bit; every real trial point, count and returned step monitored, incl. caps 1..3 and maxfun about to be exhausted.",
         note=SHELL_NOTE + " libm pow(x, 2.0) in the stepper model is the C library's, as in SciPy.",
         technique="Lean 4 proof (loop invariant over an oracle-driven stepper) + bit-exact replay of recorded line searches", design_ref="DESIGN.md §4 C11"),
